@@ -304,7 +304,7 @@ impl Session {
         let config = Config {
             cases,
             failure_persistence: None,
-            max_shrink_iters: self.tier.of(3000, 20000),
+            max_shrink_iters: self.tier.of(1500, 20000),
             max_global_rejects: cases.saturating_mul(4).max(1024),
             ..Config::default()
         };
@@ -314,8 +314,9 @@ impl Session {
         let last_fail: std::cell::RefCell<Option<(Failure, Json)>> = std::cell::RefCell::new(None);
         let strategy = vec(any::<u32>(), 0..max_len);
         let result = runner.run(&strategy, |data| {
-            if self.stop.load(Ordering::Relaxed) && !failed.get() {
-                // another shard found a violation: finish quickly
+            if self.stop.load(Ordering::Relaxed) {
+                // another shard recorded a (shrunk) violation: finish quickly, also when this
+                // shard is in the middle of shrinking its own
                 return Ok(());
             }
             let mut tape = Tape::new(data);
